@@ -18,7 +18,7 @@ if ! cmp -s /tmp/all-$$.diff $out/patch.diff; then git diff -- $(git diff --name
 rm -f /tmp/all-$$.diff
 [ -s $out/patch.diff ] || { echo "empty patch"; exit 2; }
 # demonstration files = untracked files except MUTANT.md
-git ls-files --others --exclude-standard | grep -v '^MUTANT.md$' | grep -v '^target/' > /tmp/demo-files-$$.txt
+git ls-files --others --exclude-standard | grep -v '^MUTANT.md$' | grep -v '^target[^/]*/' > /tmp/demo-files-$$.txt
 mkdir -p $out/demo
 while read f; do mkdir -p $out/demo/$(dirname $f); cp $f $out/demo/$f; done < /tmp/demo-files-$$.txt
 cp MUTANT.md $out/MUTANT.md 2>/dev/null
